@@ -291,7 +291,11 @@ def _tnorm(v) -> str:
 class Probe:
     """``P(k)`` inside templates."""
 
-    def __init__(self, sites: dict, plan: list) -> None:
+    def __init__(self, sites: dict, plan: list, shared=None) -> None:
+        # shared: class name -> exception instance raised by plan entries
+        # marked "shared" (a module-level sentinel, a memoised failure:
+        # the very same object raised again in a later render)
+        self.shared = shared
         self.sites = sites            # str(k) -> default value spec
         self.plan = {}
         for f in plan:
@@ -311,7 +315,12 @@ class Probe:
         if do is None:
             return make_value(self.sites[str(k)], self.raised, k)
         if do[0] == "raise":
-            exc = ZOO[do[1]]()
+            if len(do) > 2 and do[2] == "shared" and self.shared is not None:
+                exc = self.shared.get(do[1])
+                if exc is None:
+                    exc = self.shared[do[1]] = ZOO[do[1]]()
+            else:
+                exc = ZOO[do[1]]()
             self.raised.append((k, n, exc))
             raise exc
         return make_value(do[1], self.raised, k)
